@@ -1823,6 +1823,78 @@ func (w *c01World) reconfigOp() {
 		}
 	}
 	w.state()
+	// directed follow-up: the owner of a vault that now lies below the floor tries to repay part of the principal (it would
+	// deepen the deficit: refused), the owner of a vault of a product now above its ceiling tries to draw (it would raise the
+	// excess: refused) — both funded and otherwise valid, so that only the limit decides
+	ep, _ = w.app.AssetKeeper.GetPairsVault(w.ctx, p.id)
+	if what == "active=false" {
+		// the owner of a vault of the deactivated product tries a deposit, a withdrawal and a draw (all refused now), then an
+		// interest-only repayment (still allowed)
+		for _, v := range w.app.VaultKeeper.GetVaults(w.ctx) {
+			if v.ExtendedPairVaultID != p.id {
+				continue
+			}
+			owner, _ := sdk.AccAddressFromBech32(v.Owner)
+			on := fmt.Sprint(w.acct(v.Owner))
+			amt := sdk.NewInt(int64(1 + r.Intn(1000)))
+			if bal := w.app.BankKeeper.GetBalance(w.ctx, owner, w.denomOf[p.assetIn]).Amount; bal.LT(amt) {
+				w.fund(owner, p.assetIn, amt.Sub(bal))
+			}
+			for i, kind := range []string{"deposit", "withdraw", "draw"} {
+				env := w.env(v.AppId, p.id, v.Id, true)
+				var msg sdk.Msg
+				switch i {
+				case 0:
+					msg = &vaulttypes.MsgDepositRequest{From: v.Owner, AppId: v.AppId, ExtendedPairVaultId: p.id, UserVaultId: v.Id, Amount: amt}
+				case 1:
+					msg = &vaulttypes.MsgWithdrawRequest{From: v.Owner, AppId: v.AppId, ExtendedPairVaultId: p.id, UserVaultId: v.Id, Amount: sdk.NewInt(1)}
+				default:
+					msg = &vaulttypes.MsgDrawRequest{From: v.Owner, AppId: v.AppId, ExtendedPairVaultId: p.id, UserVaultId: v.Id, Amount: sdk.NewInt(1)}
+				}
+				ok := w.deliver(msg)
+				a5 := amt.String()
+				if i > 0 {
+					a5 = "1"
+				}
+				w.tr.Count("op:reconfig:" + kind + "-on-inactive:" + c01Outcome(ok))
+				w.tr.Line("vault.msg", kind, on, u(v.AppId), u(p.id), u(v.Id), a5, env, c01Outcome(ok))
+				w.state()
+			}
+			return
+		}
+		return
+	}
+	if what != "floor-raised" && what != "ceiling-lowered" {
+		return
+	}
+	for _, v := range w.app.VaultKeeper.GetVaults(w.ctx) {
+		if v.ExtendedPairVaultID != p.id {
+			continue
+		}
+		owner, _ := sdk.AccAddressFromBech32(v.Owner)
+		on := fmt.Sprint(w.acct(v.Owner))
+		if what == "floor-raised" && v.AmountOut.LT(ep.DebtFloor) {
+			amt := v.InterestAccumulated.Add(w.pendingInterest(v.AppId, p.id, v.Id)).AddRaw(int64(1 + r.Intn(1000)))
+			if bal := w.app.BankKeeper.GetBalance(w.ctx, owner, w.denomOf[p.assetOut]).Amount; bal.LT(amt) {
+				w.fund(owner, p.assetOut, amt.Sub(bal))
+			}
+			env := w.env(v.AppId, p.id, v.Id, true)
+			ok := w.deliver(&vaulttypes.MsgRepayRequest{From: v.Owner, AppId: v.AppId, ExtendedPairVaultId: p.id, UserVaultId: v.Id, Amount: amt})
+			w.tr.Count("op:reconfig:repay-below-raised-floor:" + c01Outcome(ok))
+			w.tr.Line("vault.msg", "repay", on, u(v.AppId), u(p.id), u(v.Id), amt.String(), env, c01Outcome(ok))
+			w.state()
+			return
+		}
+		if what == "ceiling-lowered" && minted.GTE(ep.DebtCeiling) {
+			amt := sdk.NewInt(int64(1 + r.Intn(1000)))
+			env := w.env(v.AppId, p.id, v.Id, true)
+			ok := w.deliver(&vaulttypes.MsgDrawRequest{From: v.Owner, AppId: v.AppId, ExtendedPairVaultId: p.id, UserVaultId: v.Id, Amount: amt})
+			w.tr.Count("op:reconfig:draw-above-lowered-ceiling:" + c01Outcome(ok))
+			w.tr.Line("vault.msg", "draw", on, u(v.AppId), u(p.id), u(v.Id), amt.String(), env, c01Outcome(ok))
+			w.state()
+			return
+		}
+	}
 }
 
 // ---- second-generation auctions that run out ---------------------------------------------------------------------------
